@@ -29,6 +29,37 @@ C = {
  'C17': ("exhaustive enumeration of (n1, n2, prover capacity, verifier capacity, mode) grid; oracle = threshold predicate and capacity-independence of proof bytes and verdict",
          "The whole finite grid the property names is enumerated on all three curves.", "Trusted: threshold formula from the property text.", "3/C17"),
 }
+
+C.update({
+ 'C03': ("differential property-based testing: honest / bad-witness / field-edited / shape-edited / identity-crafted (scripted prover RNG) proofs; oracle = clean-room unbatched verifier (a)∧(b)∧(c) with explicit generator folding, challenges by position from the real run (own Fiat–Shamir transcript as fallback)",
+         "Two-sided differential against an independent reference verifier over generated statements and attacker-shaped proofs; includes relation-satisfying proofs with an identity mandatory point, the inputs on which a forgotten identity check shows.",
+         "Trusted: refverify.rs and the circuit model; challenge-bytes -> scalar conversion replicated from the wire protocol.", "3/C03"),
+ 'C04': ("exhaustive single-bit flips of accepted proofs + proptest-generated single-field edits / swaps / round edits / byte edits; oracle = decode error or verification error or identical object",
+         "Mutation of accepted proofs: all bit flips of several proofs per curve, and generated structured edits through the mirror.",
+         "Trusted: mirror layout; 'identical object' = re-encodes to the original bytes. Forgery resistance beyond the enumerated edits is a cryptographic assumption.", "3/C04"),
+ 'C05': ("metamorphic property-based testing: accepted (program, proof) × one verifier-side statement/context deviation; oracle = circuit model says unsatisfied or the deviation changes bound context => verify Err; cross-verification of same-structure statements",
+         "Every deviation class the property names is generated; deviations the committed values still satisfy carry no expectation.",
+         "Trusted: circuit model for 'unsatisfied'.", "3/C05"),
+ 'C06': ("trace-invariant property testing over the instrumented Merlin log: protocol schedule as ordered required subsequence with full payload encodings, no early/extra challenge, prover ops == verifier ops, returned transcripts agree, fork for the combination weight after the last message",
+         "Observation of every transcript operation of both roles on generated programs (one/two phase, user data, bad witnesses) against the schedule as data.",
+         "Trusted: vendored merlin instrumentation (additive, KAT-checked against the registry crate); schedule.rs as the protocol order.", "3/C06"),
+ 'C07': ("differential property-based testing: generated batches (mixed sizes/phases/order, invalid members at all positions, cancelling ±d sets, capacity-insufficient members); oracle = batch verdict == AND of individual verdicts",
+         "Batch vs. conjunction over generated batches including adversarially correlated invalid members.",
+         "Trusted: individual verification (C01–C03).", "3/C07"),
+ 'C09': ("metamorphic + algebraic property testing with a scripted transcript RNG: RNG construction events, seed laws, draw decoding, per-draw +1 sensitivity probes (bijection draw <-> blinding role), openings against the model witness, recomputed blinding scalars",
+         "Establishes the structure of blinding on generated circuits: each role has its own fresh draw from the transcript-bound RNG; full algebraic opening for padded size 1.",
+         "Trusted: instrumented merlin (scripted output only on request); decoding relies on the field sampler's representation and degrades to 'not evaluated'.", "3/C09"),
+ 'C10': ("differential property-based testing of the inner-product argument for k = 0..7: create -> k rounds; verify vs explicit-folding reference and closed form; 16 negative edits",
+         "Generated vectors/factors/bases incl. degenerate rounds; both directions (accept correct openings, reject everything else) against a reference verifier.",
+         "Trusted: refverify::ref_ipp; access through the guarded re-export.", "3/C10"),
+ 'C14': ("property-based testing + independent big-integer arithmetic: source constants vs compiled, Miller–Rabin, curve equation, r·P = O on generated points (own affine arithmetic and compiled), Hasse-interval uniqueness, mul_by_a on generated field elements",
+         "Number-theoretic facts checked with independent big-int code; universally quantified parts (mul_by_a, r·P) by generated inputs.",
+         "Trusted: num-bigint; Miller–Rabin error < 4^-76; Hasse bound.", "3/C14"),
+ 'C18': ("replay of 72 recorded fixtures (verdicts, wrong statements, transcript logs, field layout, generator digests) + differential property-based testing against the frozen reference revision in both directions",
+         "Recorded reference behaviour is replayed exhaustively; fresh programs are exchanged with a compiled copy of the reference revision.",
+         "Trusted: vendor/refrev is an unmodified copy of b4846a6; fixtures recorded by it.", "3/C18"),
+})
+
 NA_REASON = "check under construction in this session (design in DESIGN.md section 3); not yet registered"
 checks=[]
 for p in PROPS:
